@@ -38,25 +38,25 @@ type program struct {
 }
 
 var programs = map[string]program{
-	"rA-wB":        {name: "rA-wB", ops: []op{{kind: "get", key: "a"}, {kind: "set", key: "b", val: "$"}}},
-	"rB-wA":        {name: "rB-wA", ops: []op{{kind: "get", key: "b"}, {kind: "set", key: "a", val: "$"}}},
-	"rA-wA":        {name: "rA-wA", ops: []op{{kind: "get", key: "a"}, {kind: "set", key: "a", val: "$"}}},
-	"ins-c":        {name: "ins-c", ops: []op{{kind: "get", key: "c"}, {kind: "set", key: "c", val: "$"}}},
-	"prefix-a-wab": {name: "prefix-a-wab", ops: []op{{kind: "getprefix", key: "a"}, {kind: "set", key: "ab", val: "$"}}},
-	"scan-w":       {name: "scan-w", ops: []op{{kind: "scan"}, {kind: "set", key: "z", val: "$"}}},
-	"scandesc-w":   {name: "scandesc-w", ops: []op{{kind: "scandesc", seek: "b", end: "a"}, {kind: "set", key: "a", val: "$"}}},
-	"scan1-w":      {name: "scan1-w", ops: []op{{kind: "scan1", seek: "a"}, {kind: "set", key: "b", val: "$"}}},
-	"w-own-read":   {name: "w-own-read", ops: []op{{kind: "set", key: "a", val: "own"}, {kind: "get", key: "a"}, {kind: "set", key: "b", val: "$"}}},
-	"del-a":        {name: "del-a", ops: []op{{kind: "get", key: "a"}, {kind: "del", key: "a"}}},
-	"wo-a":         {name: "wo-a", wo: true, ops: []op{{kind: "set", key: "a", val: "W"}}},
-	"wo-ab-c":      {name: "wo-ab-c", wo: true, ops: []op{{kind: "set", key: "ab", val: "W"}, {kind: "set", key: "c", val: "W"}}},
-	"stale-rA-wB":  {name: "stale-rA-wB", stale: true, ops: []op{{kind: "get", key: "a"}, {kind: "set", key: "b", val: "$"}}},
-	"stale-scan-w": {name: "stale-scan-w", stale: true, ops: []op{{kind: "scan"}, {kind: "set", key: "z", val: "$"}}},
-	"wo-b":              {name: "wo-b", wo: true, ops: []op{{kind: "set", key: "b", val: "W"}}},
-	"stale-rA-rB-wA":    {name: "stale-rA-rB-wA", stale: true, ops: []op{{kind: "get", key: "a"}, {kind: "get", key: "b"}, {kind: "set", key: "a", val: "$"}}},
-	"stale-rB-rA-wB":    {name: "stale-rB-rA-wB", stale: true, ops: []op{{kind: "get", key: "b"}, {kind: "get", key: "a"}, {kind: "set", key: "b", val: "$"}}},
-	"rA-rB-wA":          {name: "rA-rB-wA", ops: []op{{kind: "get", key: "a"}, {kind: "get", key: "b"}, {kind: "set", key: "a", val: "$"}}},
-	"reset-scan-w": {name: "reset-scan-w", ops: []op{{kind: "scan", reset: true}, {kind: "set", key: "z", val: "$"}}},
+	"rA-wB":          {name: "rA-wB", ops: []op{{kind: "get", key: "a"}, {kind: "set", key: "b", val: "$"}}},
+	"rB-wA":          {name: "rB-wA", ops: []op{{kind: "get", key: "b"}, {kind: "set", key: "a", val: "$"}}},
+	"rA-wA":          {name: "rA-wA", ops: []op{{kind: "get", key: "a"}, {kind: "set", key: "a", val: "$"}}},
+	"ins-c":          {name: "ins-c", ops: []op{{kind: "get", key: "c"}, {kind: "set", key: "c", val: "$"}}},
+	"prefix-a-wab":   {name: "prefix-a-wab", ops: []op{{kind: "getprefix", key: "a"}, {kind: "set", key: "ab", val: "$"}}},
+	"scan-w":         {name: "scan-w", ops: []op{{kind: "scan"}, {kind: "set", key: "z", val: "$"}}},
+	"scandesc-w":     {name: "scandesc-w", ops: []op{{kind: "scandesc", seek: "b", end: "a"}, {kind: "set", key: "a", val: "$"}}},
+	"scan1-w":        {name: "scan1-w", ops: []op{{kind: "scan1", seek: "a"}, {kind: "set", key: "b", val: "$"}}},
+	"w-own-read":     {name: "w-own-read", ops: []op{{kind: "set", key: "a", val: "own"}, {kind: "get", key: "a"}, {kind: "set", key: "b", val: "$"}}},
+	"del-a":          {name: "del-a", ops: []op{{kind: "get", key: "a"}, {kind: "del", key: "a"}}},
+	"wo-a":           {name: "wo-a", wo: true, ops: []op{{kind: "set", key: "a", val: "W"}}},
+	"wo-ab-c":        {name: "wo-ab-c", wo: true, ops: []op{{kind: "set", key: "ab", val: "W"}, {kind: "set", key: "c", val: "W"}}},
+	"stale-rA-wB":    {name: "stale-rA-wB", stale: true, ops: []op{{kind: "get", key: "a"}, {kind: "set", key: "b", val: "$"}}},
+	"stale-scan-w":   {name: "stale-scan-w", stale: true, ops: []op{{kind: "scan"}, {kind: "set", key: "z", val: "$"}}},
+	"wo-b":           {name: "wo-b", wo: true, ops: []op{{kind: "set", key: "b", val: "W"}}},
+	"stale-rA-rB-wA": {name: "stale-rA-rB-wA", stale: true, ops: []op{{kind: "get", key: "a"}, {kind: "get", key: "b"}, {kind: "set", key: "a", val: "$"}}},
+	"stale-rB-rA-wB": {name: "stale-rB-rA-wB", stale: true, ops: []op{{kind: "get", key: "b"}, {kind: "get", key: "a"}, {kind: "set", key: "b", val: "$"}}},
+	"rA-rB-wA":       {name: "rA-rB-wA", ops: []op{{kind: "get", key: "a"}, {kind: "get", key: "b"}, {kind: "set", key: "a", val: "$"}}},
+	"reset-scan-w":   {name: "reset-scan-w", ops: []op{{kind: "scan", reset: true}, {kind: "set", key: "z", val: "$"}}},
 }
 
 // result of one program execution
@@ -426,6 +426,17 @@ func main() {
 		}
 		for _, p := range quick {
 			add(p, 2, 90*time.Second)
+		}
+		// the two-index scenarios again with maps iterated in descending order (snapshot validation order)
+		for _, p := range quick {
+			if strings.HasPrefix(p[0], "2idx:") {
+				name := strings.Join(p, "+") + "/desc"
+				pp := append([]string{strings.TrimPrefix(p[0], "2idx:")}, p[1:]...)
+				sc := scenario(name, pp, multiOpts, true)
+				sc.Desc = true
+				scs = append(scs, sc)
+				jobs = append(jobs, sched.Job{Scenario: name, Bound: 1, Budget: 60 * time.Second})
+			}
 		}
 		add([]string{"rA-wB", "rB-wA", "wo-a"}, 1, 2*time.Minute)
 		add([]string{"scan-w", "ins-c", "wo-ab-c"}, 1, 2*time.Minute)
